@@ -159,9 +159,31 @@ def out_of_range_spelling(rng, t, cv):
 def spell_oor(rng, cd, t, cv, counter):
     k = t[0]
     if k in ("fixed", "var"):
-        if isinstance(cv, (str, bytes)):
-            return cv
-        return [spell_oor(rng, cd, t[1], x, counter) for x in cv]
+        if isinstance(cv, str):
+            # utf8: a str, or its UTF-8 bytes
+            r = rng.random()
+            if r < 0.5:
+                return cv
+            counter[0] += 1
+            return cv.encode("utf-8") if r < 0.8 else bytearray(cv.encode("utf-8"))
+        if isinstance(cv, bytes):
+            # byte arrays: bytes, bytearray, a list / tuple of numbers, or a str whose UTF-8 bytes are the content
+            r = rng.random()
+            if r < 0.4:
+                return cv
+            counter[0] += 1
+            if r < 0.55:
+                return bytearray(cv)
+            if r < 0.7:
+                return list(cv)
+            if r < 0.85:
+                return tuple(cv)
+            try:
+                return cv.decode("utf-8")
+            except UnicodeDecodeError:
+                return list(cv)
+        out = [spell_oor(rng, cd, t[1], x, counter) for x in cv]
+        return tuple(out) if rng.random() < 0.3 else out
     if k == "ref":
         return spell_oor_composite(rng, cd, t[1], cv, counter)
     if k in ("uint", "int", "float") and rng.random() < 0.7:
